@@ -3,6 +3,7 @@
 mod alloc;
 mod auth;
 mod builder;
+mod c12;
 mod c19;
 mod c20;
 mod cborx;
@@ -27,6 +28,7 @@ fn main() {
     let code = match args[1].as_str() {
         "auth-replay" => auth::main(rest),
         "envelope-replay" => envelope::main(rest),
+        "c12-replay" => c12::main(rest),
         "c19-replay" => c19::main(rest),
         "c20-replay" => c20::main(rest),
         "builder-replay" => builder::main(rest),
